@@ -277,7 +277,7 @@ func (e *enc) oblige(class, key, goal string, pos token.Pos, text string) {
 		NAsserts: len(e.out.Asserts), Pos: e.posOf(pos), Text: text}
 	e.out.Obls = append(e.out.Obls, o)
 	// end-of-path obligations are independent of each other: assuming one would mask the next
-	if class != "post" && class != "inv-pres" && class != "variant" {
+	if class != "post" && class != "inv-pres" && class != "variant" && class != "frame" {
 		e.assume(goal)
 	}
 }
@@ -1139,6 +1139,40 @@ func (e *enc) run() {
 			e.out.Obls = append(e.out.Obls, o)
 		}
 	}
+	if e.c != nil {
+		// receive flags exist (false) from the entry, also when the function has no such receive site
+		var sites []string
+		for site := range e.c.calls {
+			if strings.HasPrefix(site, "recv:") {
+				sites = append(sites, site)
+			}
+		}
+		sort.Strings(sites)
+		for _, site := range sites {
+			for _, cc := range e.c.calls[site] {
+				if cc.kind == "flag" {
+					gc := e.ghostCellFor(cc.name, SVal{sort: "Bool"})
+					e.declare(gc.cell+"_0", "Bool")
+					e.assertOnce("(not " + gc.cell + "_0)")
+				}
+			}
+		}
+	}
+	if e.c != nil && len(e.c.only) > 0 {
+		counts := e.siteCounts()
+		keys := make([]string, 0, len(e.c.only))
+		for k := range e.c.only {
+			keys = append(keys, k)
+		}
+		sort.Strings(keys)
+		for _, k := range keys {
+			goal := "false"
+			if counts[k] == e.c.only[k] {
+				goal = "true"
+			}
+			e.oblige("frame", "sites:"+k, goal, token.NoPos, fmt.Sprintf("exactly %d site(s) of %s in this function (found %d)", e.c.only[k], k, counts[k]))
+		}
+	}
 	// the entry snapshot must see lazily created initial cells: share map
 	e.entry = entrySnapshot
 
@@ -1347,6 +1381,14 @@ func (e *enc) loopHead(li *loopInfo, st *State) {
 					for _, cl := range e.c.calls[fmt.Sprintf("send:%s#%d", name, e.sendOrdinal(x.Pos(), name))] {
 						if cl.kind == "bind" {
 							hv(cl.name)
+						}
+					}
+				case *ssa.UnOp:
+					if x.Op == token.ARROW {
+						for _, cl := range e.c.calls["recv:"+e.valText(x.X)] {
+							if cl.kind == "flag" {
+								hv(cl.name)
+							}
 						}
 					}
 				case *ssa.Select:
